@@ -164,6 +164,36 @@ def r12_2(prog, rep):
                         decs.append((f, b, i, line))
                     elif kind != "decl":
                         rep.fail(rid, "%s/nsim-write" % f.name, f.loc(line), "nsim is modified other than by ++/--: %s" % show(x))
+    # bulk writes (memset/memcpy over a whole task record) modify the counter too: allowed only on a record that has just been
+    # taken from the free list, never on a live task (its running children still point at it)
+    nbulk = 0
+    for f in prog.fns_in(DAEMON):
+        if not f.cfg:
+            continue
+        for b, i, c, line in f.all_calls():
+            if c.get("fn") not in ("memset", "memcpy", "memmove", "bzero", "explicit_bzero", "__builtin_memset", "__builtin_memcpy") or not c["a"]:
+                continue
+            a0 = strip_casts(f.cfg.resolve(c["a"][0]))
+            t0 = (a0.get("t") or "").replace("const ", "").strip()
+            if t0 not in ("_task_t", "struct _task_s *"):
+                continue
+            nbulk += 1
+            var = lv(a0)
+            srcs = set()
+            for bb, ii, xx, ln in f.cfg.all_elems():
+                for l, kind, n in writes(xx):
+                    if lv(l) == var:
+                        rhs = n.get("init") if kind == "decl" else (n.get("r") if n.get("k") == "bin" and n["op"] == "=" else None)
+                        if rhs is not None:
+                            srcs.add(show(strip_casts(f.cfg.resolve(rhs))))
+            key = "%s/bulk-write(%s)" % (f.name, var)
+            if srcs and all(s_ in ("free_tasks",) for s_ in srcs):
+                rep.ok(rid, key, f.loc(line), "%s() clears a record fresh from the free list" % c["fn"], nontrivial=False)
+            else:
+                rep.fail(rid, key, f.loc(line), "%s() overwrites a whole task record obtained from %s: nsim of a live task is reset while its running children still "
+                         "point at it (their exits then drive the counter below zero and every later occurrence is reported instead of run)" % (c["fn"], sorted(srcs) or "?"))
+    if not nbulk:
+        rep.broken_("rule=R12.2 expected the allocator's memset of a fresh task record, found none")
     if len(incs) != 1 or len(decs) != 1:
         rep.fail(rid, "nsim/single-inc-dec", "src/echsd.c", "expected exactly one increment and one decrement of nsim, found %d/%d" % (len(incs), len(decs)))
         return
@@ -238,12 +268,14 @@ STATIC_EXCEPTIONS = {
 }
 
 
-def r12_3(prog, rep, files=(DAEMON,)):
-    rid = "R12.3"
+def r12_3(prog, rep, files=(DAEMON,), rid="R12.3", need_init=True, only=None, exceptions=None, discharge=None):
+    """need_init=False: every mutable function-local static that the function writes is in scope (used by the `no carried state`
+    rules of the pure conversions); only: {file: set of function names} restricts a file to some functions."""
     n = 0
+    exceptions = STATIC_EXCEPTIONS if exceptions is None else exceptions
     for file in files:
         for f in prog.fns_in(file):
-            if not f.cfg:
+            if not f.cfg or (only and file in only and f.name not in only[file]):
                 continue
             statics = [l for l in f.locals if l.get("static") and "const" not in (l.get("t") or "").split("*")[-1]]
             # const-qualified element types are read-only tables
@@ -256,7 +288,7 @@ def r12_3(prog, rep, files=(DAEMON,)):
                 # scope: statics that carry an initialiser (a table of defaults that calls mutate);
                 # uninitialised static buffers used as return storage are out of scope
                 tabs = [t for t in prog.tables.get(name, []) if t["scope"] == "function:" + f.name]
-                if not tabs or (tabs[0].get("init") is None and tabs[0].get("values") is None):
+                if need_init and (not tabs or (tabs[0].get("init") is None and tabs[0].get("values") is None)):
                     continue
                 # elements written in this function
                 written = {}
@@ -267,15 +299,17 @@ def r12_3(prog, rep, files=(DAEMON,)):
                         t = lv(l)
                         if t == name or t.startswith(name + "[") or t.startswith(name + "."):
                             if "[" in t and not re.fullmatch(r".*\[\d+\]", t):
-                                continue  # variable index: not an element of a fixed table
+                                if need_init:
+                                    continue  # variable index: not an element of a fixed table
+                                t = name + "[*]"   # a slot chosen at run time: nothing shows that it is rewritten before the next use
                             written.setdefault(t, []).append((b, i, nn.get("line", line)))
                     for l in []:
                         pass
                 if not written:
                     continue
                 n += 1
-                if (f.name, name) in STATIC_EXCEPTIONS:
-                    rep.note(rid, "%s/static %s" % (f.name, name), f.loc(s.get("line")), "listed exception: " + STATIC_EXCEPTIONS[(f.name, name)])
+                if (f.name, name) in exceptions:
+                    rep.note(rid, "%s/static %s" % (f.name, name), f.loc(s.get("line")), "listed exception: " + exceptions[(f.name, name)])
                     continue
 
                 def extra_gen(x, _name=name):
@@ -307,6 +341,15 @@ def r12_3(prog, rep, files=(DAEMON,)):
                                 if ("set", t) not in facts:
                                     bad.append((t, line, show(cfg.resolve(x))[:120]))
                 key = "%s/static %s" % (f.name, name)
+                if bad and discharge is not None:
+                    okd, why = discharge(f, name)
+                    if okd:
+                        rep.ok(rid, key, f.loc(s.get("line")), why)
+                        continue
+                    t, ln, what = bad[0]
+                    rep.fail(rid, key, f.loc(ln), "function-local static `%s` is used (`%s`) on a path on which this call has not written it: %s" % (name, what, why),
+                             {"function": f.name, "static": name})
+                    continue
                 if bad:
                     t, ln, what = bad[0]
                     rep.fail(rid, key, f.loc(ln),
